@@ -6,6 +6,7 @@ package slotsupervisor
 //vf:job C20 quick VF_C20_Topology nodes=1..3 retries=0
 //vf:job C20 quick VF_C20_Topology nodes=1..2 retries=1
 //vf:job C19 quick VF_C20_Topology nodes=2 retries=1 secret=1
+//vf:replayE C19 VF_C20_Topology
 //vf:job C20 thorough VF_C20_Topology nodes=3 retries=1
 //vf:job C20 thorough VF_C20_Topology nodes=2 retries=2
 //vf:job C20 thorough VF_C20_Topology nodes=4 retries=0
